@@ -2,6 +2,13 @@
 run-away regular-expression match can be killed by the parent."""
 import sys
 
+try:  # die with the parent: a run-away match must not outlive a killed check
+    import ctypes
+    import signal
+    ctypes.CDLL('libc.so.6').prctl(1, signal.SIGKILL)
+except Exception:
+    pass
+
 sys.path.insert(0, sys.argv[1])
 from debian_inspector import unsign  # noqa: E402
 
